@@ -13,10 +13,10 @@ namespace Zvbi.Search
 
 /-- a level one page that does not stop the pass and is not the page the cursor stands in (or the cursor is at the
     top of the page) is searched from its beginning: the return value tells whether the WHOLE text matches -/
-theorem codeFwd_whole (exec : Exec) {s : SearchSt} (p : Nat) (e : Entry) (w : Bool)
+theorem codeFwd_whole (sh : Shape) (exec : Exec) {s : SearchSt} (p : Nat) (e : Entry) (w : Bool)
     (hcur : key p e.subno ≠ key s.startPgno s.startSubno ∨ (s.row0 = 1 ∧ s.col0 = 0))
     (hlop : e.func = FUNC_LOP) (hns : stopFwd s p e w = false) :
-    codeFwd exec s p e w = (match exec {} (hayFwd e.text (-1) 0).1 with | none => 0 | some _ => 1) := by
+    codeFwd sh exec s p e w = (match exec {} (hayFwd e.text (-1) 0).1 with | none => 0 | some _ => 1) := by
   rcases hcur with hk | ⟨hr, hc⟩
   · unfold codeFwd
     have hlop' : ¬ e.func ≠ FUNC_LOP := by simpa using hlop
@@ -27,10 +27,10 @@ theorem codeFwd_whole (exec : Exec) {s : SearchSt} (p : Nat) (e : Entry) (w : Bo
     rw [hrow] at hlen ⊢
     have hrl : ¬ (-1 : Int) > LAST_ROW := by unfold LAST_ROW; decide
     rw [if_neg hrl, hayFwd_first_nocursor, if_neg (by omega)]
-    simp only [List.drop_zero]
+    simp only [List.drop_zero, fwdFlags_zero]
     rw [hayFwd_fst_indep e.text (-1) s.col0 (-1) 0]
     rfl
-  · exact codeFwd_fresh exec hr hc p e w hlop hns
+  · exact codeFwd_fresh sh exec hr hc p e w hlop hns
 
 theorem highlight_stop (s : SearchSt) (pgno : Nat) (e : Entry) (first ms me : Nat) :
     (highlight s pgno e first ms me).stopPgno0 = s.stopPgno0 ∧ (highlight s pgno e first ms me).stopSubno0 = s.stopSubno0 := by
@@ -137,15 +137,15 @@ theorem pass_step_order (sh : Shape) (exec : Exec) (c c' : Cache) (s : SearchSt)
   rw [searchNext_factors sh exec c' s 1 hne hp' hok'] at h
   have hr1 := statusOf_success h
   have hdir : dirOf 1 = 1 := by decide
-  have hcb : callbackOf exec 1 = pageFwd exec := by unfold callbackOf; simp
+  have hcb : callbackOf sh exec 1 = pageFwd sh exec := by unfold callbackOf; simp
   rw [hdir, hcb, hprep] at hr1 hst
-  generalize hrp : runPos (pageFwd exec) c' (walkPositions sh c' s.startPgno s.startSubno 1) s = rp at hr1 hst
+  generalize hrp : runPos (pageFwd sh exec) c' (walkPositions sh c' s.startPgno s.startSubno 1) s = rp at hr1 hst
   obtain ⟨r, sf⟩ := rp
   simp only at hr1 hst
   subst hr1
   have hst' : (searchNext sh exec walkFuel c' s 1).st = sf := by rw [hst]; simp
   rw [hst']
-  obtain ⟨pre, x, post, e, s0, hL, hlx', hfz, hcall, hpre⟩ := runPos_hit_fwd exec c' _ _ _ _ hrp (by decide)
+  obtain ⟨pre, x, post, e, s0, hL, hlx', hfz, hcall, hpre⟩ := runPos_hit_fwd sh exec c' _ _ _ _ hrp (by decide)
   obtain ⟨xp, xs, xw⟩ := x
   simp only at hlx' hcall
   obtain ⟨hlop, ms, me, hex, hsf⟩ := pageFwd_one hcall
@@ -163,9 +163,9 @@ theorem pass_step_order (sh : Shape) (exec : Exec) (c c' : Cache) (s : SearchSt)
   have hB := key_bounds hP hS0
   have hX := key_bounds hpx hxsb
   -- the page found does not stop the pass
-  have hcodex : codeFwd exec s xp.toNat e xw = 1 := by
-    rw [← codeFwd_frozen exec hfz, ← pageFwd_fst, hcall]
-  have hnsx := codeFwd_not_stop (by rw [hcodex]; decide : codeFwd exec s xp.toNat e xw ≠ -1)
+  have hcodex : codeFwd sh exec s xp.toNat e xw = 1 := by
+    rw [← codeFwd_frozen sh exec hfz, ← pageFwd_fst, hcall]
+  have hnsx := codeFwd_not_stop (by rw [hcodex]; decide : codeFwd sh exec s xp.toNat e xw ≠ -1)
   rw [stopFwd_false_iff, hctx.sp, hctx.ss, hxpn, hxs] at hnsx
   obtain ⟨hns1, hns2⟩ := hnsx
   have hns1' : key s.startPgno s.startSubno ≥ key P S0 → xw = true → key xp xs < key P S0 := by
@@ -238,12 +238,12 @@ theorem pass_step_order (sh : Shape) (exec : Exec) (c c' : Cache) (s : SearchSt)
     have hcodey := hpre _ hypre e' (by simpa using hl'')
     simp only [Int.toNat_natCast] at hcodey
     have hnsy := codeFwd_not_stop (by rw [hcodey]; decide :
-      codeFwd exec s q e' (decide (key (q : Int) t < key s.startPgno s.startSubno)) ≠ -1)
+      codeFwd sh exec s q e' (decide (key (q : Int) t < key s.startPgno s.startSubno)) ≠ -1)
     have hcur : key q e'.subno ≠ key s.startPgno s.startSubno ∨ (s.row0 = 1 ∧ s.col0 = 0) := by
       rcases hlo with h1 | h1
       · left; intro hk; rw [hts] at hk; rw [hk] at h1; omega
       · right; exact h1.2
-    rw [codeFwd_whole exec q e' _ hcur hlop' hnsy] at hcodey
+    rw [codeFwd_whole sh exec q e' _ hcur hlop' hnsy] at hcodey
     cases hx' : exec {} (hayFwd e'.text (-1) 0).1 with
     | none => rw [hx'] at hsome'; simp at hsome'
     | some mm => rw [hx'] at hcodey; simp at hcodey
@@ -267,9 +267,9 @@ theorem pass_last (sh : Shape) (exec : Exec) (c c' : Cache) (s : SearchSt) (P S0
   rw [searchNext_factors sh exec c' s 1 hne hp' hok'] at h
   have hr := statusOf_not_found h
   have hdir : dirOf 1 = 1 := by decide
-  have hcb : callbackOf exec 1 = pageFwd exec := by unfold callbackOf; simp
+  have hcb : callbackOf sh exec 1 = pageFwd sh exec := by unfold callbackOf; simp
   rw [hdir, hcb, hprep] at hr
-  generalize hrp : runPos (pageFwd exec) c' (walkPositions sh c' s.startPgno s.startSubno 1) s = rp at hr
+  generalize hrp : runPos (pageFwd sh exec) c' (walkPositions sh c' s.startPgno s.startSubno 1) s = rp at hr
   obtain ⟨r, sf⟩ := rp
   simp only at hr; subst hr
   intro q t hq hm hlo
@@ -346,15 +346,15 @@ theorem pass_last (sh : Shape) (exec : Exec) (c c' : Cache) (s : SearchSt) (P S0
   have hyns : ¬ StopsF c' s ((q : Int), (t : Int), decide (key (q : Int) t < key s.startPgno s.startSubno)) :=
     hnostop _ hyL (Or.inl rfl)
   have hl'' : lookupX c' (q : Int) (t : Int) = some e' := by rw [lookupX_equiv heq]; exact hl'
-  have hcodey := runPos_minus1 exec c' _ _ _ hrp pre _ post hL hpre hyns e' (by simpa using hl'')
+  have hcodey := runPos_minus1 sh exec c' _ _ _ hrp pre _ post hL hpre hyns e' (by simpa using hl'')
   simp only [Int.toNat_natCast] at hcodey
   have hnsy := codeFwd_not_stop (by rw [hcodey]; decide :
-    codeFwd exec s q e' (decide (key (q : Int) t < key s.startPgno s.startSubno)) ≠ -1)
+    codeFwd sh exec s q e' (decide (key (q : Int) t < key s.startPgno s.startSubno)) ≠ -1)
   have hcur : key q e'.subno ≠ key s.startPgno s.startSubno ∨ (s.row0 = 1 ∧ s.col0 = 0) := by
     rcases hlo with h1 | h1
     · left; intro hk; rw [hts] at hk; rw [hk] at h1; omega
     · right; exact h1.2
-  rw [codeFwd_whole exec q e' _ hcur hlop' hnsy] at hcodey
+  rw [codeFwd_whole sh exec q e' _ hcur hlop' hnsy] at hcodey
   cases hx' : exec {} (hayFwd e'.text (-1) 0).1 with
   | none => rw [hx'] at hsome'; simp at hsome'
   | some mm => rw [hx'] at hcodey; simp at hcodey
